@@ -351,6 +351,47 @@ pub fn check_parse_edit(word: u16, new_opcode: Option<u8>, new_rcode: Option<u16
     out
 }
 
+/// A header followed by an OPT record: flags and opcode are read from the header alone, the
+/// response code is the header's low four bits under the OPT's extended byte, whatever the
+/// EDNS version and payload size are.
+pub fn check_parse_opt(word: u16, ext: u8, version: u8) -> Vec<Finding> {
+    let case = json!({"kind": "parse-opt", "word": word, "ext": ext, "version": version});
+    let mut h = header(0x0bad, word, [0, 0, 0, 1]);
+    h.extend_from_slice(&[0, 0, 41, 0x10, 0x00, ext, version, 0, 0, 0, 0]);
+    let r = guarded(|| Packet::parse(&h).map(|p| observe(&p)));
+    let mut out = Vec::new();
+    match r {
+        Err(pn) => out.push(finding(format!("C08|parse-opt|{}", pn.sig()), format!("{:?}", pn), case)),
+        Ok(Err(e)) => {
+            if word & F_Z == 0 {
+                out.push(finding("C08|parse-opt|rejected", format!("header {:#06x} + OPT rejected: {:?}", word, e), case));
+            }
+        }
+        Ok(Ok(o)) => {
+            if word & F_Z != 0 {
+                out.push(finding("C08|parse-opt|z-bit-accepted", "Z set but parsed".to_string(), case));
+                return out;
+            }
+            if o.flags != word & FLAG_MASK {
+                out.push(finding("C08|parse-opt|flags", format!("word {:#06x} with OPT: flags {:#06x}", word, o.flags), case.clone()));
+            }
+            if o.opcode != named_opcode(((word >> 11) & 0xf) as u8) {
+                out.push(finding("C08|parse-opt|opcode", format!("word {:#06x} with OPT: opcode {}", word, o.opcode), case.clone()));
+            }
+            let full = ((ext as u16) << 4) | (word & 0xf);
+            let exp = if NAMED_RCODES.contains(&full) { full } else { RCODE_RESERVED };
+            if o.rcode != exp {
+                out.push(finding(
+                    "C08|parse-opt|rcode",
+                    format!("word {:#06x}, OPT ext-rcode {} version {:#04x}: rcode read {}, header low bits {} under extended byte give {}", word, ext, version, o.rcode, word & 0xf, exp),
+                    case,
+                ));
+            }
+        }
+    }
+    out
+}
+
 pub fn run(ctx: &Ctx) {
     ctx.set_rule("exhaustive products over header words/ids/counts, flag-set pairs, named opcode x rcode x flag subsets; non-trivial = header accepted by the parser or packet built (Z-bit words count as trivial rejections)");
     ctx.assume("RFC 1035 4.1.1 bit positions and RFC 2535/4035 AD/CD positions as transcribed in refmodel::packet");
@@ -424,6 +465,25 @@ pub fn run(ctx: &Ctx) {
         t.outcome("algebra");
     });
     ctx.space("algebra: 128 x 128 flag-set pairs x 5 opcodes x 11 rcodes (has_flags on all 128 subsets at opcode 0 / rcode 0)", (128 * 128 * ops.len() * rcs.len()) as u64, "complete");
+    // space 1b: the same words followed by an OPT record
+    par_shards(ctx, &shards, |ws, t: &mut Tally| {
+        for &w in ws.iter() {
+            for ext in [0u8, 1] {
+                for version in [0x00u8, 0x01, 0x10, 0xf0, 0xff] {
+                    t.evals += 1;
+                    if w & F_Z == 0 {
+                        t.nontrivial += 1;
+                    }
+                    let f = check_parse_opt(w, ext, version);
+                    if !f.is_empty() {
+                        ctx.violations(f);
+                    }
+                }
+            }
+        }
+        t.outcome("parse-opt");
+    });
+    ctx.space("parse with OPT: 65536 flag words x extended rcode {0,1} x EDNS version {00,01,10,f0,ff}", 65536 * 10, "complete");
     // space 3b: parse, edit through the mutators, serialise
     par_shards(ctx, &shards, |ws, t: &mut Tally| {
         for &w in ws.iter() {
@@ -497,6 +557,7 @@ pub fn replay(case: &Value) -> Vec<Finding> {
             let c: Vec<u16> = case["counts"].as_array().map(|a| a.iter().map(|x| x.as_u64().unwrap_or(0) as u16).collect()).unwrap_or_default();
             check_peek(g("word") as u16, g("id") as u16, [c[0], c[1], c[2], c[3]], &subs)
         }
+        "parse-opt" => check_parse_opt(g("word") as u16, g("ext") as u8, g("version") as u8),
         "parse-edit" => check_parse_edit(
             g("word") as u16,
             case["opcode"].as_u64().map(|x| x as u8),
